@@ -2,7 +2,7 @@
 //! yields the simplest case of each generator. Generators construct, they do not filter.
 //! Renderers here are the harness's own (never `Display` of the code under test).
 
-use crate::engine::{fill, Tape};
+use crate::engine::{fill, gen_seed, Tape};
 use crate::oracle::v2::{NEED, SIG};
 
 // ------------------------------------------------------------------------------------------
@@ -469,7 +469,7 @@ pub fn gen_v1_mutant(t: &mut Tape) -> (Vec<u8>, &'static str) {
     let mut p = gen_valid_parts(t, false);
     let tcp = p.proto != b"UNKNOWN";
     let v6 = p.proto == b"TCP6";
-    let kind = t.below(26);
+    let kind = t.below(28);
     let label: &'static str;
     match kind {
         0 => {
@@ -671,6 +671,38 @@ pub fn gen_v1_mutant(t: &mut Tape) -> (Vec<u8>, &'static str) {
             let line = format!("PROXY TCP6 {} {} {} {}\r\n", a, b, pa, pb).into_bytes();
             return (line, label);
         }
+        26 | 27 => {
+            // valid UTF-8 rich in multi-byte characters, sized to land on 100..=125 bytes exactly; kind 26 has no CR
+            // at all (the 107-byte rule decides), kind 27 ends in CRLF with the CR at index 100..=123, so that some
+            // character straddles whatever byte offset (107, 108, ...) a parser might cut or count at
+            label = if kind == 26 { "long-utf8-nocr" } else { "long-utf8-cr" };
+            let total = if t.chance(1, 2) { *t.pick(&[106usize, 107, 108, 109]) } else { t.usize_in(100, 125) };
+            let body_len = if kind == 26 { total } else { total - 2 };
+            let mut line: Vec<u8> = match t.below(4) {
+                0 => b"PROXY UNKNOWN ".to_vec(),
+                1 => b"PROXY TCP4 ".to_vec(),
+                2 => b"PROXY TCP6 ::1 ".to_vec(),
+                _ => b"PROXY UNKNOWN".to_vec(),
+            };
+            let chars = ['\u{e9}', '\u{20ac}', '\u{1f600}', '\u{7ff}', '\u{800}', '\u{10348}'];
+            while line.len() < body_len {
+                let left = body_len - line.len();
+                let c = *t.pick(&chars);
+                if c.len_utf8() <= left && t.chance(2, 3) {
+                    let mut buf = [0u8; 4];
+                    line.extend_from_slice(c.encode_utf8(&mut buf).as_bytes());
+                } else {
+                    line.push(if t.chance(1, 6) { b' ' } else { b'a' + (line.len() % 26) as u8 });
+                }
+            }
+            if kind == 27 {
+                line.extend_from_slice(b"\r\n");
+                if t.chance(1, 3) {
+                    line.extend_from_slice("tail \u{e9}\r\n".as_bytes());
+                }
+            }
+            return (line, label);
+        }
         22 => {
             label = "dup-byte";
             let mut line = p.render();
@@ -807,7 +839,7 @@ pub fn gen_addr_block(t: &mut Tape, fam: u8) -> Vec<u8> {
                         p.resize(108, 0);
                         p
                     }
-                    _ => fill(t.u32() | 1, 108),
+                    _ => fill(gen_seed(t), 108),
                 };
                 path.truncate(108);
                 b.extend_from_slice(&path);
@@ -831,14 +863,20 @@ pub fn gen_tlv_list(t: &mut Tape, room: usize) -> Vec<(u8, Vec<u8>)> {
             _ => t.byte(),
         };
         let max = room - used - 3;
-        let want = match t.weighted(&[4, 4, 2, 1]) {
+        let want = match t.weighted(&[4, 4, 2, 1, 2, 1]) {
             0 => t.usize_in(0, 4),
             1 => t.usize_in(0, 40),
             2 => *t.pick(&[255usize, 256, 257, 300, 511, 512]),
-            _ => *t.pick(&[65535usize, 65532, 30000, 4096, 65000]),
+            3 => *t.pick(&[65535usize, 65532, 30000, 4096, 65000]),
+            4 => t.usize_in(0, 600),
+            _ => {
+                let p = 1usize << t.usize_in(2, 13);
+                p + t.usize_in(0, 4) - 2
+            }
         };
         let len = want.min(max);
-        let value = if len <= 16 { t.bytes(len) } else { fill(t.u32() | 1, len) };
+        // content: random bytes mostly; all-zero / all-0xFF / ASCII / signature-like for one value in four
+        let value = if len <= 16 && t.chance(3, 4) { t.bytes(len) } else { fill(gen_seed(t), len) };
         used += 3 + len;
         out.push((kind, value));
     }
@@ -887,7 +925,7 @@ pub fn gen_v2_header(t: &mut Tape) -> V2Gen {
     // payload itself is sized by the TLV generator (including totals of exactly 65535)
     if t.chance(1, 40) && payload.len() < 65535 {
         let pad = 65535 - payload.len();
-        payload.extend(fill(t.u32(), pad));
+        payload.extend(fill(gen_seed(t), pad));
     }
     let mut bytes = SIG.to_vec();
     bytes.push(0x20 | cmd);
